@@ -73,7 +73,14 @@ def p_b(x):
     return b
 
 
-FNS = dict(p_a=p_a, p_b=p_b, f_scalar=f_scalar, g_same=g_same, h_other=h_other, e_exc=e_exc, n_null=n_null, o_over=o_over, p_part=p_part)
+@memento_function(cluster="c8", version="1")
+def a_arr(x):
+    import numpy as np
+    REC.calls.append(("a_arr", x))
+    return np.arange(300, dtype=np.int64) + x       # weak-referenceable, larger than the tiny cache
+
+
+FNS = dict(a_arr=a_arr, p_a=p_a, p_b=p_b, f_scalar=f_scalar, g_same=g_same, h_other=h_other, e_exc=e_exc, n_null=n_null, o_over=o_over, p_part=p_part)
 
 
 def expected(name, x):
@@ -82,6 +89,8 @@ def expected(name, x):
         return ["bytes", payload(x).hex()[:40], len(payload(x))]
     if name == "h_other":
         return ["list", [x, "other"]]
+    if name == "a_arr":
+        return ["array", [x, x + 1, x + 299], 300]
     if name == "e_exc":
         return ["raise", "ValueError", "boom %d" % x]
     if name == "n_null":
@@ -103,6 +112,12 @@ def canon(v):
         return ["bytes", v.hex()[:40], len(v)]
     if isinstance(v, list):
         return ["list", v]
+    try:
+        import numpy as np
+        if isinstance(v, np.ndarray):
+            return ["array", [int(v[0]), int(v[1]), int(v[-1])], int(v.size)]
+    except ImportError:
+        pass
     if isinstance(v, Partition):
         return ["partition", {k: canon(v.get(k)) for k in sorted(v.list_keys())}]
     return ["other", repr(v)[:80]]
